@@ -93,7 +93,17 @@ def _is_identity_of(expr, var):
 
 
 def posed_cvxpy(w):
-    """Posed problem of a CvxpyWrapper after generate_problem / solve (uses w.prob as it is now)."""
+    """Posed problem of a CvxpyWrapper after generate_problem / solve (uses w.prob as it is now).
+    The values of the cvxpy variables (the solver's solution) are saved first and restored afterwards."""
+    saved = [(var, None if var.value is None else np.array(var.value, copy=True)) for var in w.prob.variables()]
+    try:
+        return _posed_cvxpy(w)
+    finally:
+        for var, val in saved:
+            var.value = val
+
+
+def _posed_cvxpy(w):
     import cvxpy as cp
     prob = w.prob
     G, F = w.G, w.F
